@@ -7,7 +7,7 @@ PROPS = {
         "level": "proof",
         "harness": ["purediff", "gwrun"],
         "stages": [("pure", stage_pure, {"suites": ["can_call"], "n_quick": 20000, "n_thorough": 400000}),
-                   ("gw", stage_gw, {"profiles": [("access", 1200, 6000)]})],
+                   ("gw", stage_gw, {"profiles": [("access", 600, 6000), ("scacc", 500, 4000), ("accrefs", 400, 3000)]})],
         "rule": "structured call lists over a 4-letter alphabet with empty/star entries, action = entry | prefix | suffix | "
                 "random | whole list | raw bytes, 10% byte-mutated; non-trivial = list with >= 2 entries; distinct by input",
         "assumptions": ["codec.AccessResult decoding (encoding/json) is not modelled"],
@@ -75,7 +75,7 @@ PROPS = {
         "level": "proof",
         "harness": ["gwrun", "purediff"],
         "stages": [("pure", stage_pure, {"suites": ["ressub"], "n_quick": 4000, "n_thorough": 60000}),
-                   ("gw", stage_gw, {"profiles": [("basic", 200, 1000), ("refs", 480, 3000), ("churn", 480, 3000), ("wild", 0, 1500)]})],
+                   ("gw", stage_gw, {"profiles": [("basic", 150, 1000), ("refs", 350, 3000), ("churn", 350, 3000), ("access", 200, 1500), ("scacc", 250, 2000), ("reset", 250, 1500), ("accrefs", 200, 1500), ("query", 150, 1000), ("wild", 0, 1500)]})],
         "rule": "random histories of the real gateway under the harness scheduler (every connection task, cache task and hooked goroutine "
                 "granted one at a time): 2 clients, 3-4 resources with reference graphs (sharing, cycles, self references), "
                 "subscribe/unsubscribe/get, service change/add/remove/custom events made unique by a fresh tag, answers in any order; "
@@ -91,7 +91,7 @@ PROPS = {
         "coq": ["Props/C02.v"],
         "level": "proof",
         "harness": ["gwrun"],
-        "stages": [("gw", stage_gw, {"profiles": [("refs", 600, 4000), ("churn", 600, 4000), ("gets", 0, 1500), ("wild", 0, 1500)]})],
+        "stages": [("gw", stage_gw, {"profiles": [("refs", 400, 4000), ("churn", 400, 4000), ("accrefs", 300, 2000), ("reset", 250, 1500), ("access", 200, 1000), ("gets", 0, 1500), ("wild", 0, 1500)]})],
         "rule": "as C01 with reference-changing events and unsubscribes; the reference client (Spec/Client.v) retains what is reachable from "
                 "direct subscriptions and outstanding subscribe/get requests; after every frame: no dangling reference, no event for an "
                 "unheld resource, right kind, index in range; non-trivial = more than 4 client frames and a quiescent point",
@@ -104,7 +104,7 @@ PROPS = {
         "coq": ["Props/C03.v"],
         "level": "proof",
         "harness": ["gwrun"],
-        "stages": [("gw", stage_gw, {"profiles": [("basic", 320, 2000), ("refs", 480, 3000), ("churn", 400, 3000), ("wild", 0, 1500)]})],
+        "stages": [("gw", stage_gw, {"profiles": [("basic", 200, 2000), ("refs", 300, 3000), ("churn", 300, 3000), ("access", 250, 2000), ("scacc", 250, 2000), ("reset", 300, 2000), ("accrefs", 200, 1500), ("wild", 0, 1500)]})],
         "rule": "as C01; every service event carries a unique tag; per client and resource the delivered events must be a contiguous run "
                 "of the service stream (candidate-position tracking, no false alarm on repeated identical events), nothing missing at quiescence",
         "assumptions": ["no resets/query events in this stage (superseded events are not exercised)"],
@@ -117,7 +117,7 @@ PROPS = {
         "level": "proof",
         "harness": ["gwrun", "purediff"],
         "stages": [("pure", stage_pure, {"suites": ["dispatch"], "n_quick": 4000, "n_thorough": 80000}),
-                   ("gw", stage_gw, {"profiles": [("basic", 320, 2000), ("refs", 320, 2500), ("churn", 480, 3000), ("wild", 0, 1500)]})],
+                   ("gw", stage_gw, {"profiles": [("basic", 200, 2000), ("refs", 200, 2500), ("churn", 300, 3000), ("access", 300, 2500), ("scacc", 300, 2500), ("reset", 200, 1500), ("accrefs", 200, 1500), ("wild", 0, 1500)]})],
         "rule": "as C01; response ledger: every response matches exactly one outstanding request id of that connection, nothing outstanding at quiescence; "
                 "plus the dispatcher differential (exactly one immediate reply or one requester call per method string)",
         "assumptions": [],
@@ -129,7 +129,7 @@ PROPS = {
         "coq": ["Props/C08.v"],
         "level": "proof",
         "harness": ["gwrun"],
-        "stages": [("gw", stage_gw, {"profiles": [("basic", 400, 2500), ("churn", 600, 3000), ("gets", 0, 1500), ("wild", 0, 1500)]})],
+        "stages": [("gw", stage_gw, {"profiles": [("basic", 300, 2500), ("churn", 400, 3000), ("access", 250, 2000), ("scacc", 250, 2000), ("accrefs", 200, 1500), ("reset", 200, 1500), ("gets", 0, 1500), ("wild", 0, 1500)]})],
         "rule": "as C01 with unsubscribe counts (absent, 0, negative, 1..3) and failing gets; ledger driven only by observable successes predicts every "
                 "unsubscribe outcome and is compared with the gateway's own direct counts (introspection) at every quiescent point",
         "assumptions": [],
@@ -142,7 +142,7 @@ PROPS = {
         "level": "proof",
         "harness": ["gwrun", "purediff"],
         "stages": [("pure", stage_pure, {"suites": ["can_get"], "n_quick": 10, "n_thorough": 10}),
-                   ("gw", stage_gw, {"profiles": [("access", 1200, 6000), ("basic", 240, 1200), ("wild", 0, 1000)]})],
+                   ("gw", stage_gw, {"profiles": [("access", 600, 6000), ("scacc", 500, 4000), ("accrefs", 400, 3000), ("basic", 150, 1200), ("wild", 0, 1000)]})],
         "rule": "histories with a consistent access policy per (token, resource) that changes only together with a reaccess event, token event or "
                 "system reset; every access outcome (grant, get:false, accessDenied, internal error, timeout); subscribe/get/call/auth with "
                 "resource responses, concurrent requests on one resource; monitor: every data delivery for a directly requested resource needs an "
@@ -156,7 +156,7 @@ PROPS = {
         "coq": ["Props/C06.v"],
         "level": "proof",
         "harness": ["gwrun"],
-        "stages": [("gw", stage_gw, {"profiles": [("access", 1200, 6000), ("reset", 600, 3000)]})],
+        "stages": [("gw", stage_gw, {"profiles": [("access", 600, 6000), ("scacc", 500, 4000), ("reset", 300, 3000), ("accrefs", 300, 3000)]})],
         "rule": "as C04 with token events on connections with and without a token, reaccess events, system resets with access patterns, triggers injected "
                 "while loading, while events are queued and while an earlier check is pending; monitor: every trigger is followed (by the next quiescent "
                 "point) by an access request with a current token for each affected direct subscription, a non-grant verdict by an unsubscribe event, and "
@@ -185,7 +185,7 @@ PROPS = {
         "level": "proof",
         "harness": ["gwrun", "purediff"],
         "stages": [("pure", stage_pure, {"suites": ["expand_cid"], "n_quick": 3000, "n_thorough": 50000}),
-                   ("gw", stage_gw, {"profiles": [("access", 800, 4000), ("churn", 400, 2000)]})],
+                   ("gw", stage_gw, {"profiles": [("access", 500, 4000), ("scacc", 500, 4000), ("churn", 250, 2000), ("accrefs", 250, 2000)]})],
         "rule": "multi-connection histories with distinct tokens; monitor: no frame to a client contains any connection id, every service request made by "
                 "connection c's worker carries c's id and a token of c in effect since the last quiescent point; differential of the {cid} expansion",
         "assumptions": ["services never put connection ids into payloads (the mock does not)"],
